@@ -114,6 +114,8 @@ def run(prog, chk):
     chk.guard(check_single_decomposer, prog, chk, "R02.11")
     from .c09 import check_master_isolation
     chk.guard(check_master_isolation, prog, chk, "R02.12")
+    from .c01 import check_only_missing_glyphs_added
+    chk.guard(check_only_missing_glyphs_added, prog, chk, "R02.13")
 
 
 def _append_of(prog, fi, ctor_name):
@@ -233,7 +235,29 @@ def r022(prog, chk):
         ok = len(c.args) >= 2 and T(c.args[0]).endswith(".getPointPen()") and T(c.args[1]) == "self.context.absoluteError"
         chk.ob("R02.2", f"{cf.short}|Cu2QuPointPen(glyph pen, absoluteError)", ok, where(cf, c), detail=T(c, 80),
                message="Cu2QuPointPen is not given the glyph's own point pen and the context's absolute error")
-    chk.minimum("R02.2", 10)
+    # conversion and reversal happen together and once: contours are only redrawn through the conversion pen ...
+    draws = [c for c in A.body_nodes(cf.node) if isinstance(c, ast.Call) and isinstance(c.func, ast.Attribute) and c.func.attr in ("drawPoints", "draw") and c.args]
+    need(draws, f"cannot interpret {cf.short}: contours are not redrawn")
+    for c in draws:
+        okp, bad = every_origin(prog, cf, c.args[0], lambda e, f_: isinstance(e, ast.Call) and A.callee_name(e) == "Cu2QuPointPen", allow_const=False)
+        chk.ob("R02.2", f"{cf.short}|{A.keytext(cf.node, c)}|contours are only redrawn through the conversion pen", okp, where(cf, c), detail=T(c, 60),
+               message=f"{cf.short}: contours are redrawn through a pen other than Cu2QuPointPen ({[T(b, 40) for b in bad][:2]}): direction / structure of a glyph can change without the conversion "
+                       f"(e.g. a second reversal of outlines that were already converted and reversed)")
+    # ... and a layer whose lib says the curves are already quadratic is left alone (the marker is written by this very filter after it converted AND reversed)
+    cc = ix.get_method("ufo2ft.filters.cubicToQuadratic.CubicToQuadraticFilter", "__call__", own=True)
+    sup = [c for c in A.body_nodes(cc.node) if isinstance(c, ast.Call) and isinstance(c.func, ast.Attribute) and c.func.attr == "__call__" and "super()" in T(c.func.value)]
+    need(len(sup) == 1, f"cannot interpret {cc.short}: super().__call__")
+    cfgc = prog.cfg(cc)
+    early = [r for r in A.returns_of(cc.node) if any(o == "eq" and r_ == "'quadratic'" for o, l, r_ in facts(prog, cc, r))
+             and isinstance(r.value, ast.Call) and A.callee_name(r.value) == "set" and not r.value.args]
+    ok = bool(early) and any(o == "truthy" and l.endswith(".rememberCurveType") for r in early for o, l, r_ in facts(prog, cc, r)) \
+        and all(not cfgc.exists_path(cfgc.node_of(sup[0]), [cfgc.node_of(r)]) for r in early)
+    # the loop that looks for the marker covers the font lib and the layer lib, and runs before the filter does anything
+    lp = [l for l in A.body_nodes(cc.node) if isinstance(l, ast.For) and any(r in list(ast.walk(l)) for r in early)]
+    ok = ok and len(lp) == 1 and isinstance(lp[0].iter, (ast.Tuple, ast.List)) and len(lp[0].iter.elts) == 2 and cfgc.exists_path(cfgc.node_of(lp[0]), [cfgc.node_of(sup[0])])
+    chk.ob("R02.2", f"{cc.short}|already converted layers are left alone (marker in the font lib or the layer lib)", ok, where(cc, sup[0]), detail="return set() under curve_type == 'quadratic', before the filter runs",
+           message=f"{cc.short}: a layer marked as already quadratic is processed again (the marker is written after conversion + reversal, so anything done again is done twice)")
+    chk.minimum("R02.2", 12)
 
 
 def _expand(prog, fi, e, depth=0):
@@ -611,6 +635,10 @@ def r0210(prog, chk, rule="R02.10"):
 
 
 MUTANTS = [
+    M("already quadratic layers are still reversed (seeded C02e shape)", "ufo2ft/filters/cubicToQuadratic.py", "CubicToQuadraticFilter.filter",
+      "contours = list(glyph)", "if glyph.lib.get('already'):\n    pen = ReverseContourPointPen(glyph.getPointPen())\ncontours = list(glyph)", rule="R02.2"),
+    M("quadratic marker no longer stops the filter", "ufo2ft/filters/cubicToQuadratic.py", "CubicToQuadraticFilter.__call__",
+      "logger.info('Curves already converted to quadratic')\nreturn set()", "logger.info('Curves already converted to quadratic')", rule="R02.2"),
     M("one tolerance for all masters from the first master's UPM (seeded C02b)", "ufo2ft/preProcessor.py", "TTFInterpolatablePreProcessor.__init__",
       "self._conversionErrors = [(conversionError or DEFAULT_MAX_ERR) * getAttrWithFallback(ufo.info, 'unitsPerEm') for ufo in self.ufos]",
       "self._conversionErrors = (conversionError or DEFAULT_MAX_ERR) * getAttrWithFallback(self.ufos[0].info, 'unitsPerEm')", rule="R02.3"),
